@@ -37,7 +37,37 @@ def _module_constants(tree):
         if tgt and isinstance(val, ast.Constant) and isinstance(val.value, (str, int, float)) \
                 and not isinstance(val.value, bool) and stores.get(tgt) == 1:
             out[tgt] = val
+        elif tgt and tgt.startswith('_') and stores.get(tgt) == 1 and (
+                _literal_table(val) or (isinstance(val, ast.Tuple) and _immutable_literal(val))) \
+                and _names_read_only(tree, tgt):
+            out[tgt] = val            # a private look-up table that is only ever read (in this module)
     return out
+
+
+def _names_read_only(tree, name):
+    """every mention of the module-level name only reads the table (see _read_only_uses)"""
+    parent = {}
+    for n in ast.walk(tree):
+        for c in ast.iter_child_nodes(n):
+            parent[id(c)] = n
+    for n in ast.walk(tree):
+        if not (isinstance(n, ast.Name) and n.id == name):
+            continue
+        if not isinstance(n.ctx, ast.Load):
+            continue          # the one defining store (counted by the caller)
+        p = parent.get(id(n))
+        if isinstance(p, ast.Attribute) and p.attr in _READERS and isinstance(parent.get(id(p)), ast.Call):
+            continue
+        if isinstance(p, ast.Subscript) and p.value is n and isinstance(p.ctx, ast.Load):
+            continue
+        if isinstance(p, (ast.For, ast.comprehension)) and p.iter is n:
+            continue
+        if isinstance(p, ast.Compare) and n in p.comparators and all(isinstance(o, (ast.In, ast.NotIn)) for o in p.ops):
+            continue
+        if isinstance(p, ast.Call) and n in p.args and isinstance(p.func, ast.Name) and p.func.id in _CONSUMERS:
+            continue
+        return False
+    return True
 
 
 class _ConstSubst(ast.NodeTransformer):
